@@ -276,6 +276,9 @@ func (d *Driver) Run() {
 		a := &p.Actions[i]
 		if a.OpN > 0 {
 			k := [2]int{a.Inst, a.OpN}
+			if a.OnInst > 0 {
+				k[0] = a.OnInst - 1
+			}
 			d.opTrig[k] = append(d.opTrig[k], a)
 			continue
 		}
